@@ -3,7 +3,7 @@ import re
 from .. import cfg
 from ..anchors import dispatch_cone, is_user_code
 from ..effects import norm
-from ..facts import strip_generics, AnchorLost
+from ..facts import strip_generics, keyname, AnchorLost
 from ..flow import flow, fold, strip, deep_strip, show, mentions
 from .util import (call_sites, foreign, exactly_once, or_terms, result_gates, closure_constructions, adt_constructions,
                    type_instances)
@@ -51,7 +51,7 @@ def c13b(F):
     for (m, bb, t) in sf:
         args = flow(m).term_arg(bb, 2)
         okk = bool(args) and all(any((fold(x) or 0) & O_NONBLOCK for x in or_terms(e)) for e in args)
-        res.append((okk, "setfl-nonblock@%s" % strip_generics(m.name), "fcntl(F_SETFL) argument contains the O_NONBLOCK constant",
+        res.append((okk, "setfl-nonblock@%s" % keyname(m.name), "fcntl(F_SETFL) argument contains the O_NONBLOCK constant",
                     t["sp"], {"flags": [show(e) for e in args]}))
         # the function reports failure of that fcntl: Ok(()) is returned only when the call did not return -1
         sf_ids.add(m.id)
@@ -71,7 +71,7 @@ def c13b(F):
                            not (e[0] == "const" and e[4] == "Send") for e in meth)
             n_sites += 1
             if not is_write:
-                res.append((True, "wakefd-send@%s" % strip_generics(m.name), "WakeFd built with the send method (MSG_DONTWAIT per call)", rv.get("sp"), None))
+                res.append((True, "wakefd-send@%s" % keyname(m.name), "WakeFd built with the send method (MSG_DONTWAIT per call)", rv.get("sp"), None))
                 continue
             clos = closure_constructions(m)
             sf_calls = [b for (b, t, ci) in call_sites(F, m, lambda ci: ci.id in sf_ids)]
@@ -87,7 +87,7 @@ def c13b(F):
                         g, w = result_gates(F, m, s, cb)
                         if not g:
                             gated, why = False, w
-                res.append((through and gated, "wakefd-write@%s" % strip_generics(m.name),
+                res.append((through and gated, "wakefd-write@%s" % keyname(m.name),
                             "a WakeFd using write() reaches the action closure only through a successful O_NONBLOCK switch",
                             m.blocks[bb]["s"][si]["sp"], {"passes_set_flags": through, "result_checked": why}))
     if n_sites < 2:
@@ -107,11 +107,11 @@ def c13b(F):
                 e = deep_strip(e)
                 if e[0] == "agg" and e[1][0] == "adt" and e[1][1].endswith("WakeMethod"):
                     tyok = True
-                    res.append((e[1][2] == "Send", "wake-caller@%s" % strip_generics(ci.name),
+                    res.append((e[1][2] == "Send", "wake-caller@%s" % keyname(ci.name),
                                 "caller passes the constant send method", t["sp"], {"method": show(e)}))
                 elif e[0] == "field" and e[2] == "method":
                     tyok = True
-                    res.append((WAKEFD in (e[4] or ""), "wake-caller@%s" % strip_generics(ci.name),
+                    res.append((WAKEFD in (e[4] or ""), "wake-caller@%s" % keyname(ci.name),
                                 "caller passes the method recorded in its WakeFd", t["sp"], {"method": show(e)}))
     _b_cache[id(F)] = res
     return res
@@ -175,7 +175,7 @@ def rule_a(ctx):
                   (t.get("f") is not None and F.inst[t["f"]].kind == "virtual" and any(tid in reaches for tid, _ in F.inst[t["f"]].impls or []))]
         okk, why = exactly_once(fi, blocks)
         # conditional actions are not wake actions; only frames that call it on some path are listed
-        ctx.check(okk, rid, "wake-chain:%s" % strip_generics(fi.name), "%s reaches the wake primitive exactly once per invocation" % fi.name, fi.span, why)
+        ctx.check(okk, rid, "wake-chain:%s" % keyname(fi.name), "%s reaches the wake primitive exactly once per invocation" % fi.name, fi.span, why)
         ctx.fn(fi); n += 1
     if n < 4:
         raise AnchorLost("expected >= 4 frames between the wake actions and the wake primitive, found %d" % n)
@@ -207,7 +207,7 @@ def rule_c(ctx):
             in_cone = m.id in dispatch_cone(F).parent
             if owned or raw_param or in_cone:
                 n_close += 1
-                ctx.check(m.id == drop.id, rid, "close@%s" % strip_generics(m.name),
+                ctx.check(m.id == drop.id, rid, "close@%s" % keyname(m.name),
                           "close() of the wake descriptor happens only in Drop for WakeFd", t["sp"], {"fd": [show(e) for e in ex]})
     ctx.check(n_close >= 1, rid, "close:exists", "Drop for WakeFd closes the descriptor (%d site)" % n_close, drop.span,
               "the owner no longer closes its descriptor")
